@@ -66,7 +66,10 @@ def run(chk):
     # where the error is reported under every layout: inserted lines of every kind, line-ending conventions, truncation, joined
     # statements (gen_layout), and adjacent-token pairs in statement contexts (gen_pairs); verdict, line and message: model = implementation
     from . import gen_layout, gen_pairs
+    from . import c01
     ltexts = [t for (_, t) in gen_layout.variants(quick, rng)] + gen_pairs.pair_texts(rng, limit=4000 if quick else 30000)
+    # one word too many after a complete statement of every form (every token spelling); chains of every repeatable construct
+    ltexts += c01.trailing(rng, limit=8000 if quick else None) + c01.chains() + c01.deep_nesting([1, 2, 3, 4, 5, 6, 9])
     suite.compare(chk, [f"(exec y{i} parse {C.hx(t)})" for i, t in enumerate(ltexts)], "layouts", project=lambda x: x, suite_name="PARSE-layouts")
     bad = 0
     for i, c in enumerate(cases):
